@@ -733,6 +733,10 @@ func init() {
 		m.unsupported("time.Format on symbolic instant")
 		return nil
 	})
+	reg("time.Unix", func(m *Machine, fn *ssa.Function, a []Value) Value {
+		sec, ns := m.toInt(a[0]), m.toInt(a[1])
+		return Struct{int64(0), sec*1000000000 + ns, (*Value)(nil)}
+	})
 	reg("time.Sleep", func(m *Machine, fn *ssa.Function, a []Value) Value { m.yield(); return nil })
 	reg("time.Since", func(m *Machine, fn *ssa.Function, a []Value) Value {
 		return m.binop(token.SUB, types.Typ[types.Int64], m.now(), a[0].(Struct)[1], nil)
